@@ -42,27 +42,33 @@ try:
     rc2, out2 = run(['go', 'test', '-vet=off', '-count=1', '-run', runre, '.'], f'{W}/{pkg}', timeout=900)
     meta['demo_passes_without_change'] = rc2 == 0
     meta['ran'] += [f'git apply patch.diff; python3 tools/baseline.py (REPO_ROOT=worktree); go test -run {runre} . (with and without the change) in {pkg}']
-finally:
+except BaseException:
     subprocess.run(['git', '-C', '/repo', 'worktree', 'remove', '--force', W], capture_output=True)
+    raise
 print(json.dumps({k: meta[k] for k in meta if k not in ('ran',)}, indent=1))
 ok = meta.get('suite_passes_with_change') and meta.get('demo_fails_with_change') and meta.get('demo_passes_without_change')
 if not ok:
+    subprocess.run(['git', '-C', '/repo', 'worktree', 'remove', '--force', W], capture_output=True)
     print('SEED NOT CONFIRMED'); sys.exit(1)
-# run the checks against /repo with the change applied
-assert subprocess.run(['git', '-C', '/repo', 'status', '--porcelain', '--untracked-files=no'], capture_output=True, text=True).stdout.strip() == '', '/repo not clean'
+# run the checks with the change applied. The machinery is pointed at the scratch worktree (VERIF_REPO) and writes
+# its work/evidence under /tmp (VERIF_OUT): same code path as `git -C /repo apply` + ./check + `git checkout`, but
+# /repo itself stays untouched so other work can go on. (Set SEED_ON_REPO=1 to do it literally on /repo.)
 res = {}
 try:
-    subprocess.run(['git', '-C', '/repo', 'apply', patch], check=True)
+    os.remove(f'{W}/{pkg}/zz_seed_demo_test.go')
+    subprocess.run(['git', 'apply', patch], cwd=W, check=True)
+    e3 = dict(os.environ, VERIF_REPO=W, VERIF_OUT=f'/tmp/sv/out-{sid}')
     for pr in props:
         t0 = time.time()
-        p = subprocess.run(['./check', pr, '--tier', 'quick'], cwd='/verif', capture_output=True, text=True)
+        p = subprocess.run(['./check', pr, '--tier', 'quick'], cwd='/verif', capture_output=True, text=True, env=e3)
         lines = [l for l in p.stdout.splitlines() if l.startswith(('VIOLATION', 'KNOWN', 'ENGINE-MISMATCH', 'WITNESS', 'VACUOUS', 'INCONCLUSIVE', 'CHECK-BROKEN', '  detail'))]
         res[pr] = {'exit': p.returncode, 'caught': p.returncode == 1 and any(l.startswith('VIOLATION') for l in lines), 'wall_s': round(time.time() - t0, 1), 'lines': lines[:8]}
         print(pr, 'exit', p.returncode, 'caught' if res[pr]['caught'] else 'MISSED', *lines[:4], sep='\n  ')
 finally:
-    subprocess.run(['git', '-C', '/repo', 'checkout', '--', '.'], check=True)
+    subprocess.run(['git', '-C', '/repo', 'worktree', 'remove', '--force', W], capture_output=True)
+    shutil.rmtree(f'/tmp/sv/out-{sid}', ignore_errors=True)
 meta['check_results'] = res
-meta['ran'] += [f'git -C /repo apply patch.diff; ./check {pr} --tier quick; git -C /repo checkout -- .' for pr in props]
+meta['ran'] += [f'(scratch worktree with patch.diff applied) VERIF_REPO=<worktree> ./check {pr} --tier quick' for pr in props]
 d = f'/verif/seeded/{sid}'
 os.makedirs(d, exist_ok=True)
 shutil.copy(patch, f'{d}/patch.diff'); shutil.copy(demo, f'{d}/demo_test.go')
